@@ -430,6 +430,39 @@ def case_filename(ctx, rng, idx):
             ctx.ev("file-name", True)
             names[n1] = v
     ctx.sig("filename", kind)
+    # results of ONE unpacked variation (what a cluster job for a single index
+    # holds): the name is filled from that variation's own values, so distinct
+    # variations get distinct names and each file loads back as its own variation
+    if kind in ("pyint", "pyfloat", "npint", "npfloat") and len(vals) >= 3:
+        p = SimulationParameters()
+        p.add("x", list(vals[:4]) if rng.random() < 0.5 else np.array(vals[:4]))
+        p.add("other", 3)
+        p.set_unpack_parameter("x")
+        wd = core.workdir()
+        seen_names = {}
+        for child in p.get_unpacked_params_list():
+            sr = SimulationResults()
+            sr.set_parameters(child)
+            r = Result("r", Result.SUMTYPE)
+            r.update(int(child.unpack_index) + 1)
+            sr.add_result(r)
+            tmpl = os.path.join(wd, "var_%d_{x}_k{other}.pickle" % idx)
+            okc, used = ctx.call("file-name", sr.save_to_file, tmpl,
+                                 cls="variation:save-raised", detail={"x": repr(child["x"])})
+            if not okc:
+                continue
+            ctx.ev("file-name", used not in seen_names, cls="variation:same-name-for-two-variations",
+                   detail={"name": used, "x": repr(child["x"]), "also": repr(seen_names.get(used))})
+            seen_names[used] = child["x"]
+        for used, xv in seen_names.items():
+            okc, back = ctx.call("file-name", SimulationResults.load_from_file, used,
+                                 cls="variation:load-raised", detail={"name": used})
+            if okc:
+                ctx.ev("file-name", back.params["x"] == xv and
+                       back["r"][-1].get_result() == back.params.unpack_index + 1,
+                       cls="variation:file-holds-another-variation",
+                       detail={"name": used, "want_x": repr(xv), "got_x": repr(back.params["x"])})
+        ctx.sig("filename-variation", kind)
 
 
 def case_runner_results(ctx, rng, idx):
